@@ -173,6 +173,24 @@ REF_PROPS = {
     "C06": dict(alphabet=["bin", "scal", "sum", "view"], profiles=["c06"],
                 clauses=["val", "sh", "base", "grad", "gshare", "np_share"], depth=(2, 3), cases=[1, 2, 4, 6],
                 quick_n=700, thorough_n=20000),
+    "C07": dict(alphabet=["bin", "scal", "sum", "view", "setitem"], profiles=["c07"],
+                clauses=["val", "sh", "grad", "cr", "released", "leak", "base", "np_share"], depth=(2, 3), cases=[2, 5],
+                quick_n=500, thorough_n=15000),
+    "C09": dict(alphabet=["bin", "scal", "sum", "setitem"], profiles=["c09"],
+                clauses=["val", "sh", "grad", "cr", "np_share"], depth=(2, 3), cases=[2, 5],
+                quick_n=600, thorough_n=20000),
+    "C10": dict(alphabet=["bin", "scal", "sum", "matmul", "view", "aug"], profiles=["c10"],
+                clauses=["val", "sh", "const", "grad", "np_share"], depth=(2, 3), cases=[3],
+                quick_n=800, thorough_n=20000),
+    "C12": dict(alphabet=["bin", "scal", "sum", "matmul", "view"], profiles=["c12"],
+                clauses=["val", "sh", "grad", "gshare", "gdata", "inputs", "share", "np_share"], depth=(2, 3), cases=[1, 2],
+                quick_n=700, thorough_n=20000),
+    "C13": dict(alphabet=["bin", "scal", "view", "setitem", "aug"], profiles=["c13"],
+                clauses=["val", "sh", "const", "base", "share", "cr", "grad", "np_share"], depth=(2, 3), cases=[1, 5],
+                quick_n=700, thorough_n=20000),
+    "C14": dict(alphabet=["bin", "scal", "sum", "matmul", "view"], profiles=["c14"],
+                clauses=["val", "sh", "grad", "gtyped", "np_share"], depth=(2, 3), cases=[2, 4, 6],
+                quick_n=900, thorough_n=25000),
 }
 
 
